@@ -11,3 +11,5 @@ open RV.C16
 #print axioms tsv_old_reader_drops_unbound_rows
 #print axioms csv_preserves
 #print axioms escape_table
+#print axioms bindings_complete
+#print axioms old_iter_forgets_unbound_rows
